@@ -364,6 +364,14 @@ impl Quantity {
     }
 }
 
+/// Verification hook (feature `verif-hooks`): read-only access to the conversion target.
+#[cfg(feature = "verif-hooks")]
+impl Quantity {
+    pub fn verif_conversion_target(&self) -> Option<&Quantity> {
+        self.conversion_target.as_deref()
+    }
+}
+
 impl From<&Number> for Quantity {
     fn from(n: &Number) -> Self {
         Quantity::from_scalar(n.to_f64())
